@@ -5,6 +5,7 @@ package main
 // calls, environment calls.
 
 import (
+	"regexp"
 	"fmt"
 	"go/constant"
 	"go/token"
@@ -26,6 +27,9 @@ type SpecEnv struct {
 	atLoop     bool
 	qn         *int
 	depth      int
+	noUnfold   bool
+	exportRec  bool // lemma export: emit the global defining equation even for "rec unfold"
+	rangeAlloc *ssa.Alloc // the current loop's hidden range index (loop clauses)
 	entryAlloc string
 }
 
@@ -204,7 +208,7 @@ func (env *SpecEnv) lookupIdent(name string) (Val, bool) {
 						continue
 					}
 					if ld, ok := idx.(*ssa.UnOp); ok {
-						if a, ok := ld.X.(*ssa.Alloc); ok && a.Comment == "rangeindex" {
+						if a, ok := ld.X.(*ssa.Alloc); ok && a.Comment == "rangeindex" && (env.rangeAlloc == nil || a == env.rangeAlloc) {
 							if v, ok := env.fr.regs[x]; ok {
 								return v, true
 							}
@@ -234,6 +238,10 @@ func (env *SpecEnv) lookupIdent(name string) (Val, bool) {
 
 func (env *SpecEnv) localByName(name string) (Val, bool) {
 	fr := env.fr
+	if name == "rangeindex" && env.rangeAlloc != nil {
+		v, ok := env.cur.cells[cellKey{fr.id, env.rangeAlloc}]
+		return v, ok
+	}
 	var best, dead *ssa.Alloc
 	for _, b := range fr.fn.Blocks {
 		for _, ins := range b.Instrs {
@@ -1452,14 +1460,32 @@ func (ex *Exec) safeEvalModifies(env *SpecEnv, n *Node, what string) (out []modI
 }
 
 // loop clauses are evaluated with the frame's locals visible
-func (ex *Exec) evalLoopClause(fr *Frame, st *State, cl Clause) string {
+func (ex *Exec) evalLoopClause(fr *Frame, st *State, cl Clause, lp *loopRec) string {
 	env := ex.loopEnv(fr, st)
+	env.rangeAlloc = rangeAllocOf(lp)
 	return env.evalBool(cl.E, "loop invariant "+cl.Text)
 }
 
-func (ex *Exec) evalLoopExpr(fr *Frame, st *State, n *Node) string {
+func (ex *Exec) evalLoopExpr(fr *Frame, st *State, n *Node, lp *loopRec) string {
 	env := ex.loopEnv(fr, st)
+	env.rangeAlloc = rangeAllocOf(lp)
 	return env.evalInt(n, "loop variant")
+}
+
+// rangeAllocOf: the hidden index of the range loop lp (it is stepped in the
+// loop's own header), so that "rangeindex" in a loop clause means this loop's.
+func rangeAllocOf(lp *loopRec) *ssa.Alloc {
+	if lp == nil {
+		return nil
+	}
+	for _, ins := range lp.header.Instrs {
+		if st, ok := ins.(*ssa.Store); ok {
+			if a, ok := st.Addr.(*ssa.Alloc); ok && a.Comment == "rangeindex" {
+				return a
+			}
+		}
+	}
+	return nil
 }
 
 func (ex *Exec) loopEnv(fr *Frame, st *State) *SpecEnv {
@@ -1521,10 +1547,13 @@ func (env *SpecEnv) evalRec(pd *PredDef, args []*Node) Val {
 		retSort = flatten(retT)[0].Sort
 	}
 	fname := "rec_" + pd.Name
+	if _, ok := ex.sc.decls[fname]; !ok && pd.Unfold && !env.exportRec {
+		ex.sc.fun(fname, sorts, retSort)
+	}
 	if _, ok := ex.sc.decls[fname]; !ok {
 		ex.sc.fun(fname, sorts, retSort)
 		// defining axiom
-		c := &SpecEnv{ex: ex, cur: env.cur, vars: map[string]Val{}, pkg: env.pkg, qn: env.qn, depth: env.depth + 1}
+		c := &SpecEnv{ex: ex, cur: env.cur, vars: map[string]Val{}, pkg: env.pkg, qn: env.qn, depth: env.depth + 1, noUnfold: true}
 		var binders, actuals []string
 		for i, p := range pd.Params {
 			pi := infos[i]
@@ -1572,6 +1601,9 @@ func (env *SpecEnv) evalRec(pd *PredDef, args []*Node) Val {
 		sfail("argument %d of %s has the wrong shape", i, pd.Name)
 	}
 	t := app(fname, actual...)
+	if pd.Unfold && !env.noUnfold {
+		env.unfoldRec(pd, fname, t, args)
+	}
 	if retSort == sBool {
 		return mathBool(t)
 	}
@@ -1579,6 +1611,42 @@ func (env *SpecEnv) evalRec(pd *PredDef, args []*Node) Val {
 		return Val{T: retT, L: []string{t}}
 	}
 	return mathInt(t)
+}
+
+var boundVarRe = regexp.MustCompile(`q[vl]_[A-Za-z0-9_]+`)
+
+// unfoldRec asserts the defining equation of a recursive spec function for one
+// application (generalised over the bound variables that occur in it). The
+// recursive calls inside the body are not unfolded again: a contract that needs
+// two levels has to mention the intermediate application itself.
+func (env *SpecEnv) unfoldRec(pd *PredDef, fname, t string, args []*Node) {
+	ex := env.ex
+	key := "unfold:" + t
+	if _, ok := ex.sc.decls[key]; ok {
+		return
+	}
+	ex.sc.decls[key] = "done"
+	c := &SpecEnv{ex: ex, cur: env.cur, old: env.old, fr: env.fr, vars: map[string]Val{}, pkg: env.pkg, qn: env.qn, depth: env.depth + 1, noUnfold: true, entryAlloc: env.entryAlloc}
+	for i, p := range pd.Params {
+		c.vars[p.Name] = env.eval(args[i])
+	}
+	ex.sc.pure++
+	body := c.eval(pd.Body)
+	ex.sc.pure--
+	eq := mkEq(t, body.L[0])
+	seen := map[string]bool{}
+	var binders []string
+	for _, m := range boundVarRe.FindAllString(eq, -1) {
+		if !seen[m] {
+			seen[m] = true
+			binders = append(binders, "("+m+" Int)")
+		}
+	}
+	if len(binders) == 0 {
+		ex.sc.axiom(eq)
+		return
+	}
+	ex.sc.axiom("(forall (" + strings.Join(binders, " ") + ") (! " + eq + " :pattern (" + t + ")))")
 }
 
 func nodeTextAny(n *Node) string {
